@@ -184,6 +184,13 @@ class ExprGen:
 
     def field_expr(self, parent_type, fname, field, depth) -> Optional[dict]:
         ch, g = self.ch, self.g
+        for iface in getattr(parent_type, "interfaces", None) or ():
+            if fname in iface.fields and set(iface.fields[fname].args) != set(field.args):
+                # the implementing type gives this field more (optional) arguments than the interface does.  The generated
+                # class offers the interface's signature there, so the extra arguments cannot be passed: a limitation of the
+                # builder, not an invalid document - the property speaks of the documents that can be produced.  Such fields
+                # are left out of the drawn expressions (thorough soak, seed 91).
+                return None
         named = g["named"](field.type)
         e: Dict[str, Any] = {"gql": fname, "parent": parent_type.name, "args": {}, "alias": None, "sub": [], "on": {},
                              "positional": bool(ch.draw("e.positional", 2)),
